@@ -131,7 +131,10 @@ def parse_observable(data, _valid_refs=None, allow_custom=False, interoperabilit
     # get deep copy since we are going modify the dict and might
     # modify the original dict as _get_dict() does not return new
     # dict when passed a dict
-    obj = copy.deepcopy(obj)
+    try:
+        obj = copy.deepcopy(obj)
+    except RecursionError:
+        raise ParseError("Can't parse observable: content is nested too deeply")
 
     obj['_valid_refs'] = _valid_refs or []
 
